@@ -53,18 +53,29 @@ HdrCls(r, lname) ==
 \* value classes are generated FROM the published type/format: "ok" satisfies it, "bad" and
 \* "nonutf8" clearly do not, "absent" is no header at all; "empty"/"ambiguous" are lexically
 \* ambiguous forms that are recorded but never judged.
-HdrDefBad  == {"absent", "bad", "nonutf8"}
-HdrAmbig   == {"empty", "ambiguous"}
+\* On a JavaScript runtime a header value is a byte string: bytes that are not UTF-8 are not by
+\* themselves ill-formed there, so for the TS server that class is recorded but not judged.
+HdrDefBad(r) == IF r.server = "ts" THEN {"absent", "bad"} ELSE {"absent", "bad", "nonutf8"}
+HdrAmbig(r)  == IF r.server = "ts" THEN {"empty", "ambiguous", "nonutf8"} ELSE {"empty", "ambiguous"}
 
-HdrDefOffenders(r) == {h.lname : h \in {g \in Required(r.rpc) : HdrCls(r, g.lname) \in HdrDefBad}}
-HdrMayOffenders(r) == {h.lname : h \in {g \in Required(r.rpc) : HdrCls(r, g.lname) \in HdrDefBad \cup HdrAmbig}}
+HdrDefOffenders(r) == {h.lname : h \in {g \in Required(r.rpc) : HdrCls(r, g.lname) \in HdrDefBad(r)}}
+\* The statement constrains dispatch by the REQUIRED headers. A present but ill-formed OPTIONAL header
+\* may be ignored (Go server) or reported (TS server): it can offend, it need not.
+OptionalIllFormed(r) == {h.lname : h \in {g \in Effective(r.rpc) \ Required(r.rpc) : HdrCls(r, g.lname) \in {"bad", "nonutf8", "ambiguous", "empty"}}}
+HdrMayOffenders(r) == {h.lname : h \in {g \in Required(r.rpc) : HdrCls(r, g.lname) \in HdrDefBad(r) \cup HdrAmbig(r)}}
+                      \cup (IF r.server = "ts" THEN OptionalIllFormed(r) ELSE {})
 
 (***************************************************************************)
 (* URL-carried fields.                                                     *)
 (***************************************************************************)
 UrlBad   == {"malformed", "oor", "missing_required"}
-UrlOffenders(r) == {u.field : u \in {x \in Range(r.url) : x.cls \in UrlBad}}
-UrlBound(r)     == {u.field : u \in Range(r.url)}
+\* D_client_query_in_body (known finding, TS server): on POST / PUT / PATCH the emitted TS route
+\* handler never looks at the query string: query-annotated fields come from the body only and a
+\* missing required query parameter is not noticed
+TsIgnoresQuery(r) == "D_client_query_in_body" \in Dev /\ r.server = "ts" /\ HasBody(r.rpc.verb)
+UrlEff(r)       == IF TsIgnoresQuery(r) THEN {u \in Range(r.url) : u.loc = "path"} ELSE Range(r.url)
+UrlOffenders(r) == {u.field : u \in {x \in UrlEff(r) : x.cls \in UrlBad}}
+UrlBound(r)     == {u.field : u \in UrlEff(r)}
 UrlTok(r, f)    == (CHOOSE u \in Range(r.url) : u.field = f).tok
 UrlCls(r, f)    == (CHOOSE u \in Range(r.url) : u.field = f).cls
 \* a URL value "sets" the field when it is present and convertible
@@ -92,10 +103,15 @@ DevAdmissible(r, f) ==
   IF "D_body_resets_url" \in Dev /\ BodyApplies(r) /\ f \in UrlBound(r) /\ f \notin Mentions(r)
   THEN {Zero(r, f)} ELSE {}
 
+\* D_ts_server_url_values_unchecked (known finding, TS server): URL values are converted with Number(..)
+\* / === "true" and never checked, a missing required query parameter is not noticed: the request is
+\* dispatched and the offending fields carry whatever the conversion gave
+TsUrlUnchecked(r) == "D_ts_server_url_values_unchecked" \in Dev /\ r.server = "ts"
 SawOK(r, s) ==
   /\ DOMAIN s = Range(r.rpc.fields)
   /\ \A f \in DOMAIN s :
         \/ s[f] \in Admissible(r, f) \cup DevAdmissible(r, f)
+        \/ (TsUrlUnchecked(r) /\ f \in UrlOffenders(r))
         \/ BothMentionRepeated(r, f)
         \* a leniently decoded body leaves body-carried fields unconstrained
         \/ (r.body.cls = "lenient" /\ BodyApplies(r) /\ f \notin UrlBound(r))
@@ -163,7 +179,7 @@ CheckHeaders ==
 \* both mention a field either value is admissible, and either failure may be the one reported).
 BindUrl ==
   /\ pc = "binding" /\ ~bound.url
-  /\ IF UrlOffenders(req) = {}
+  /\ IF UrlOffenders(req) = {} \/ TsUrlUnchecked(req)
      THEN pc' = pc /\ err' = err /\ bound' = [bound EXCEPT !.url = TRUE]
      ELSE /\ \E off \in (SUBSET UrlOffenders(req)) \ {{}} : pc' = "errored" /\ err' = VE("url", off)
           /\ bound' = bound
